@@ -131,6 +131,30 @@ pub fn run_c03(ctx: &RunCtx) {
         }
         ctx.eval_local("C03", st, rep);
     });
+    // literals that cannot be represented (integers of 2^128 and more, in every spelling and
+    // sign) in every position that takes an integer: each is reported, none vanishes silently
+    let unrep = unrepresentable_templates();
+    ctx.par_units(unrep.len(), |i, st| {
+        let mut rep = CaseReport::default();
+        let text = &unrep[i];
+        let judged = check_c03(text, &mut rep.failures);
+        if judged && rep.failures.is_empty() {
+            if let Ok(res) = analyze(text) {
+                let mut v = vec![];
+                all_semantic_errors(res.semantic_errors(), &mut v);
+                if v.is_empty() {
+                    rep.fail("C03:unrepresentable-literal-without-diagnostic", json!({"input": {"source": text}, "expected": "at least one semantic diagnostic", "actual": "none"}));
+                }
+            }
+        }
+        rep.discarded = !judged;
+        rep.class("unrepresentable-literal");
+        rep.nontrivial = Some(fnv64(text.as_bytes()));
+        if i % 23 == 0 {
+            rep.sample = Some(text.clone());
+        }
+        ctx.eval_local("C03", st, rep);
+    });
     // (c) filtered soup / mutants
     let snippets = crate::textgen::load_snippets();
     let n = ctx.pick(300_000u64, 10_000_000u64);
@@ -175,6 +199,37 @@ pub fn run_c03(ctx: &RunCtx) {
         rep.nontrivial = Some(fnv64(snippets[i].as_bytes()));
         ctx.eval_local("C03", st, rep);
     });
+}
+
+/// Programs that are well-formed except for one integer literal of magnitude >= 2^128.
+pub fn unrepresentable_templates() -> Vec<String> {
+    let w = "340282366920938463463374607431768211456";
+    let hex = "0x1_0000_0000_0000_0000_0000_0000_0000_0000";
+    let bin = format!("0b1{}", "0".repeat(128));
+    let oct = format!("0o4{}", "0".repeat(42));
+    let huge = "999999999999999999999999999999999999999999999999";
+    let mut lits: Vec<String> = vec![];
+    for m in [w.to_string(), hex.to_string(), bin, oct, huge.to_string(), format!("0{w}"), w.replace("4028", "4_028")] {
+        lits.push(m.clone());
+        lits.push(format!("-{m}"));
+        lits.push(format!("- {m}"));
+        lits.push(format!("({m})"));
+        lits.push(format!("-({m})"));
+    }
+    let holes = [
+        "{};", "int x = {};", "const int x = {};", "int x; x = {};", "uint y; y = {};", "float f = {};", "for int i in [{}:1] { }", "for int i in [0:{}] { }", "for int i in [0:{}:2] { }",
+        "for int i in {1, {}} { }", "switch (1) { case {} { } }", "switch (1) { case 1, {} { } default { } }", "switch ({}) { case 1 { } }", "U({}, 0, 0) $0;", "U(1, 2, 3, {}) $0;", "gphase({});",
+        "pow({}) @ U(0, 0, 0) $0;", "def f(int a) { } f({});", "def f(int a, int b) { } f(1, {});", "def f() -> int { return {}; }", "gate g(t) q { U({}, t, 0) q; }", "float({});", "int[32]({});",
+        "bit[8] c; c[{}] = 1;", "qubit[4] q; U(0, 0, 0) q[{}];", "qubit[4] q; let al = q[{}:1];", "if (true) { int z = {}; }", "while (false) { {}; }", "int x = 1 + {};", "int x = {} * 2;",
+        "if ({} == 1) { }", "@note\nint x = {};", "int a = 1; int b = {}; int c = 3;",
+    ];
+    let mut v = vec![];
+    for h in holes {
+        for l in &lits {
+            v.push(h.replace("{}", l));
+        }
+    }
+    v
 }
 
 fn extreme_templates() -> Vec<String> {
